@@ -26,7 +26,7 @@ def field_case(rng, size, kind, order, off, pattern, tkind):
     buf = (buf & ~mask) | ((pattern & ((1 << size) - 1)) << shift)
     enc = {"t": "num", "size": size, "kind": kind, "order": order, "default": None, "context": None}
     return {"env": [], "data": buf.to_bytes(nbytes, "big").hex(), "pos": off, "type": {"name": "T", "kind": tkind, "enc": enc},
-            "pattern": pattern, "size": size}
+            "pattern": pattern, "size": size, "via": "xml" if rng.random() < 0.3 else "objects"}
 
 
 def int_patterns(rng, w):
@@ -81,12 +81,12 @@ def key(case):
     w = case["size"]
     pat = case["pattern"]
     pc = "zero" if pat == 0 else "ones" if pat == (1 << w) - 1 else "sign" if pat == 1 << (w - 1) else "other"
-    return (case["type"]["kind"], w, e["kind"], e["order"], case["pos"], pc if case["type"]["kind"] == "int" else pat)
+    return (case["type"]["kind"], w, e["kind"], e["order"], case["pos"], pc if case["type"]["kind"] == "int" else pat, case.get("via"))
 
 
 def branch(case, out):
     e = case["type"]["enc"]
-    return f"{e['kind']}:{e['order']}:{'err' if isinstance(out, core.Err) else 'ok'}"
+    return f"{e['kind']}:{e['order']}:{case.get('via')}:{'err' if isinstance(out, core.Err) else 'ok'}"
 
 
 def size(case):
